@@ -250,6 +250,13 @@ func hasAddressableRef(c schema.Constraint, depth int) bool {
 	return false
 }
 
+func rangeOr(r *hcl.Range) hcl.Range {
+	if r == nil {
+		return hcl.Range{}
+	}
+	return *r
+}
+
 func typeName(t cty.Type) string {
 	if t == cty.NilType {
 		return "(none)"
@@ -330,7 +337,10 @@ func (p c09) check(rc Recipe, st State, valid bool, rep *runner.Reporter) {
 			for i := range ts {
 				t := ts[i]
 				rep.Eval(1)
-				if parent != nil {
+				// a traversal declared as target through Reference{Address} keeps its own
+				// absolute address wherever it is written (type-less, no definition range)
+				declaredByReference := t.DefRangePtr == nil && t.Type == cty.NilType && len(t.NestedTargets) == 0
+				if parent != nil && !declaredByReference {
 					stepKind := "?"
 					if len(t.Addr) > 0 {
 						stepKind = fmt.Sprintf("%T", t.Addr[len(t.Addr)-1])
@@ -344,7 +354,10 @@ func (p c09) check(rc Recipe, st State, valid bool, rep *runner.Reporter) {
 						}
 					}
 					rep.NonTrivial(fmt.Sprintf("nested|%s|d%d|valid=%t", stepKind, depth, valid))
-					if valid && t.RangePtr != nil && parent.RangePtr != nil && !rangeWithin(*t.RangePtr, *parent.RangePtr) && !parent.RangePtr.Empty() {
+					// (a block collection's own range only spans the run of adjacent
+					// blocks starting at the first one: block elements are exempt)
+					_, isBlockElem := m.blocks[rangeOr(t.RangePtr)]
+					if valid && !isBlockElem && t.RangePtr != nil && parent.RangePtr != nil && !rangeWithin(*t.RangePtr, *parent.RangePtr) && !parent.RangePtr.Empty() {
 						viol("NESTED range-outside-parent step="+stepKind, fmt.Sprintf("nested target %s range %s lies outside its parent's range %s", t.Addr, fmtRange(*t.RangePtr), fmtRange(*parent.RangePtr)))
 					}
 					// index steps of block collections denote the real block
